@@ -276,6 +276,54 @@ def _inplace_worker(args):
     return acc.result()
 
 
+def _after_history_worker(i):
+    """A message constructed *after* another message of its class was built and edited in place must still round-trip
+    (and be the message its arguments describe): construct a, edit a in place (every event on every mutable part),
+    construct c with the same arguments, run the C01 oracle on c."""
+    from mc.props import c13
+    acc = core.Acc()
+    cls, kwargs, defaulted = c13.constructible_with_defaults()[i]
+    qn = classes.qualname(cls)
+    nc = objects._not_constructible()
+    import copy
+
+    def build():        # every instance gets its own copy of the arguments: the harness itself must not alias them
+        return cls(**copy.deepcopy(kwargs))
+    try:
+        first = build()
+        events = c13.mutable_paths_events(build())
+    except nc:
+        return acc.result()
+    # what the oracle says about an instance built before any history (defaults such as "now" with microseconds or a
+    # random cookie are judged by the main exploration, not here)
+    base = core.Acc()
+    check_object(base, cls, first, ('no-history',), -1)
+    baseline = {sig.split(':no-history')[0] for sig in base.violations}
+    for path, mutate in events:
+        try:
+            a = build()
+            mutate(a)
+        except Exception:  # noqa - construction or the edit refused
+            continue
+        try:
+            c = build()
+        except nc:
+            continue
+        acc.count('after_history_objects')
+        acc.state(core.h64('after', qn, path))
+        sub = core.Acc()
+        check_object(sub, cls, c, ('no-history',), -1)
+        acc.counters['transitions'] = acc.counters.get('transitions', 0) + 1
+        for sig, v in sub.violations.items():
+            if sig.split(':no-history')[0] in baseline:
+                continue
+            acc.violation('after_history:%s:%s' % (cls.__name__, path.split(':')[0]),
+                          'constructed after %s of an earlier instance: %s' % (path, v.get('what', '')),
+                          {'kind': 'after_history', 'index': i, 'cls': qn, 'path': path})
+            break
+    return acc.result()
+
+
 def run(ctx):
     if ctx.quick:
         params = (1, 2, False, 4000)
@@ -289,6 +337,8 @@ def run(ctx):
     ctx.notes['seed_objects'] = len(items)
     ctx.pmap(_worker, items)
     ctx.pmap(_inplace_worker, [(qn, i, not ctx.quick) for qn, i in work_items(ctx)])
+    from mc.props import c13
+    ctx.pmap(_after_history_worker, list(range(len(c13.constructible_with_defaults()))), fresh=True)
     ctx.assumptions += [
         'domain of a field = what the class constructor accepts; a value compose() refuses with a documented '
         'error has no composed bytes (counted as not_composable)',
@@ -302,11 +352,19 @@ def run(ctx):
                            'concrete class, %d for %d top-level classes; field alphabets of DESIGN §3.2; '
                            'state = distinct canonical dump; plus, for every seed object, every one-field change of a '
                            'nested object reached both by reconstruction and by assignment in place (the two '
-                           'histories must compose identically)' % (params[0], params[1], len(TOP_LEVEL)))
+                           'histories must compose identically); and for every class with defaulted arguments the '
+                           'message constructed after an in-place edit of an earlier instance (fresh process per class)'
+                           % (params[0], params[1], len(TOP_LEVEL)))
 
 
 def replay(ctx, w):
     acc = core.Acc()
+    if w.get('kind') == 'after_history':
+        res = _after_history_worker(w['index'])
+        for v in res[1]:
+            if v['witness'].get('path') == w.get('path'):
+                return v
+        return res[1][0] if res[1] else None
     if w.get('kind') == 'inplace':
         res = _inplace_worker((w['cls'], w['seed'], True))
         for v in res[1]:
